@@ -56,6 +56,12 @@ func HC16_reversal() {
 	} else {
 		rt.Reach("all-considered")
 	}
+	if len(chose) > 1 && rt.Bool("chose-listed-descending") {
+		// the considered alternatives are listed in the order of choseToMake: not necessarily by id
+		for i, j := 0, len(chose)-1; i < j; i, j = i+1, j-1 {
+			chose[i], chose[j] = chose[j], chose[i]
+		}
+	}
 	w := vh.Weights("w.", crit, 0, 4)
 	methodParams := majority.MajorityHeuristicParams{Weights: w}
 	current := vh.Params(known, chose, crit, methodParams)
